@@ -112,6 +112,19 @@ parameters:
   b: '%envInt("B")%'
   c: '%todo()%'
   d: 'x%a%y'
+services:
+  todoSvc:
+    todo: true
+  failing:
+    constructor: '"errors".New'
+    arguments: ["@todoSvc"]
+    getter: GetFailing
+    type: error
+  okSvc:
+    constructor: '"errors".New'
+    arguments: ["boom"]
+    getter: GetOk
+    type: error
 `
 
 func freshContainer(repo string) (string, error) {
